@@ -63,3 +63,8 @@ def _describe(v: Any) -> str:
     if isinstance(v, Sym):
         return v.key()
     return repr(v)
+
+
+# functions that had to be replaced by their return annotation (they contain a loop outside the supported forms);
+# every evidence file written by the process lists them as assumptions
+ANNOTATION_SUMMARIES: set = set()
